@@ -19,7 +19,14 @@
       itself is not modelled): the reader recovers every plaintext
       ([C18_roundtrip]) and a module that was modified, truncated, replaced by
       another module of the same or another file, or opened with a wrong key is
-      rejected ([C18_tamper_detected] and its corollaries);
+      rejected ([C18_tamper_detected] and its corollaries); the streamed reader
+      of pages, dictionary pages and bloom filters does the same for a module
+      of any length that fits the 4-byte length field ([C18_stream_roundtrip],
+      [C18_reader_accepts_written_lengths]);
+    - whatever the constructor and however the options are nested in
+      WriterConfig values used as options, the writer of the file uses the
+      EncryptionConfig named last: one that was given is never dropped
+      ([C18_options_reach_writer], [C18_encryption_not_dropped]);
     - in plaintext-footer mode the clear footer holds no column metadata
       ([C18_no_plain_stats_partial]: a statement about which ColumnChunk fields
       the model serialises; that ciphertexts do not reveal plaintext is an
@@ -228,6 +235,18 @@ Section C18_Aead.
     exact (truncated_fails key seal open_ sealed (sealed_of_entry key e) k m ok uniq (in_map _ _ _ He)).
   Qed.
 
+  (** The same through the streamed reader (readDecryptedEnvelopeFrom: pages,
+      dictionary pages, bloom filters), whatever follows the module in the
+      stream and whatever its size: the only bound is the one of the 4-byte
+      length field ([shapes]: module length below 2^32). *)
+  Theorem C18_stream_roundtrip : forall e rest, In e es ->
+    read_envelope_from key open_ (e_key key e) (aad_of_pos (e_pfx key e) (e_fu key e) (e_pos key e))
+      (envelope_of key seal (sealed_of_entry key e) ++ rest) = Some (e_plain key e, rest).
+  Proof.
+    intros e rest He.
+    exact (stream_roundtrip key seal open_ sealed (sealed_of_entry key e) rest ok (in_map _ _ _ He)).
+  Qed.
+
   Theorem C18_wrong_key_rejected : forall e k env, In e es -> wf_bytes env ->
     k <> e_key key e ->
     decrypt_module key open_ k (aad_of_pos (e_pfx key e) (e_fu key e) (e_pos key e)) env = None.
@@ -238,11 +257,39 @@ Section C18_Aead.
 End C18_Aead.
 
 Print Assumptions C18_roundtrip.
+Print Assumptions C18_stream_roundtrip.
 Print Assumptions C18_tamper_detected.
 Print Assumptions C18_transplant_rejected.
 Print Assumptions C18_modified_rejected.
 Print Assumptions C18_truncated_rejected.
 Print Assumptions C18_wrong_key_rejected.
+
+(** * Module sizes *)
+(** The streamed reader accepts the length field of every module the writer
+    can write (plaintext of any length whose module length fits the 4-byte
+    field), provided the stream holds the module. *)
+Theorem C18_reader_accepts_written_lengths : forall plain_len avail,
+  (module_len_of_plain plain_len < 256 ^ 4)%N -> (module_len_of_plain plain_len <= avail)%N ->
+  stream_accepts (len_field plain_len) avail = true.
+Proof. exact stream_accepts_len_field. Qed.
+Print Assumptions C18_reader_accepts_written_lengths.
+
+(** * Writer options *)
+(** Whatever the constructor (NewGenericWriter / NewWriter, or NewSortingWriter
+    / Write / WriteFile which hand a WriterConfig to the writer of the file)
+    and however the options are nested in WriterConfig values used as options,
+    the writer of the file uses the EncryptionConfig named last; when any
+    option names one, the writer encrypts. *)
+Theorem C18_options_reach_writer : forall ct l,
+  effective_encryption ct l = last_opt (flat_map enc_mentions l).
+Proof. exact effective_encryption_spec. Qed.
+Print Assumptions C18_options_reach_writer.
+
+Theorem C18_encryption_not_dropped : forall ct l,
+  flat_map enc_mentions l <> [] ->
+  exists c, effective_encryption ct l = Some c /\ In c (flat_map enc_mentions l).
+Proof. exact encryption_not_dropped. Qed.
+Print Assumptions C18_encryption_not_dropped.
 
 (** * Footer modes *)
 (** In both modes no ColumnChunk field that carries column metadata
@@ -359,3 +406,20 @@ Example C18_ex_toy_run :
   decrypt_module bytes (toy_open ex_sealed) ex_k2 a0 (env 0%nat) = None /\
   decrypt_module bytes (toy_open ex_sealed) ex_k1 a0 (firstn 30 (env 0%nat)) = None.
 Proof. vm_compute. repeat split; reflexivity. Qed.
+
+(** A module of 16 MiB and one of 1 MiB + 1: the length fields, accepted. *)
+Example C18_ex_big_modules :
+  oracle_envelope (2 ^ 24) (2 ^ 24 + 28) = ([28; 0; 0; 1]%N, true) /\
+  oracle_envelope (2 ^ 20 + 1) (2 ^ 21) = ([29; 0; 16; 0]%N, true) /\
+  (* the stream ends before the module: refused *)
+  snd (oracle_envelope (2 ^ 20) (2 ^ 20)) = false.
+Proof. vm_compute. repeat split. Qed.
+
+(** NewSortingWriter(out, n, WithEncryption(cfg 1), other options): encrypts with 1;
+    a decoy named earlier inside a configuration is overridden. *)
+Example C18_ex_options :
+  effective_encryption CViaConfig [WEnc 1; WOther] = Some 1%N /\
+  effective_encryption CDirect [WConf [WEnc 2; WOther]; WConf [WConf [WEnc 1]]; WOther] = Some 1%N /\
+  effective_encryption CDirect [WEnc 1; WConf [WOther]] = Some 1%N /\
+  effective_encryption CDirect [WOther] = None.
+Proof. vm_compute. repeat split. Qed.
